@@ -5,6 +5,11 @@ K1  Encoded from MIR: the post-command hooks of commit, reset, checkout, switch,
     hook — Repository methods, repo_storage, refs, rewrite_log, authorship::*, handle_* helpers, config —
     is an environment boundary that *records the attempt*: reaching it at all on a failed / dry-run
     operation is the violation (no note, working log, INITIAL or journal mutator can run without passing it).
+K3  one step of the rebase / cherry-pick content replay.  Encoded from MIR: authorship::rebase_authorship::
+    {build_original_head_line_author_maps, transform_changed_files_to_final_state} with the real attribution
+    tracker (diff engine = reference LCS model) over files whose lines are pairwise distinct.  Obligation:
+    after the step every line of the new content that the original head attributed to session S is
+    attributed to S, and no other line is attributed to any session.
 K2  LineRange::shift (used by the note-shifting helpers): never an inverted or zero-based range, identity
     below the insertion point.
 """
@@ -63,6 +68,13 @@ def install(M):
     c07.install(M)
 
     def boundary(P, c, args, dt):
+        if P.state.get('c02_open'):
+            # K3 runs the real code behind the boundary
+            cand = P.M.candidate(c.raw)
+            if cand is None:
+                raise Unsupported('no MIR for %s' % c.raw)
+            fn = P.M.mir.get(cand)
+            return P.run_fn(fn, P._untuple(fn, args, c))
         P.events.append(('boundary', c.key))
         raise Escaped(c.key)
     M.env_patterns.append((BOUNDARY, boundary))
@@ -77,6 +89,9 @@ def plan(tier, seed):
     for kind in ('Single', 'Range'):
         for sign in ('pos', 'neg'):
             tasks.append(('shift', {'kind': kind, 'sign': sign}))
+    alpha = ['a', 'b', 'c'] if tier == 'quick' else ['a', 'b', 'c', 'd']
+    tasks.append(('replay_step', {'alphabet': alpha}))
+    tasks.append(('replay_step', {'alphabet': alpha[:3], 'reorder': True, 'two_sessions': True}))
     return tasks
 
 
@@ -169,7 +184,110 @@ def ob_shift(h, shape):
     h.sample = h.witness()
 
 
-OBLIGATIONS = {'inert': ob_inert, 'shift': ob_shift}
+RA = 'authorship::rebase_authorship'
+VAS = 'authorship::virtual_attribution::VirtualAttributions'
+ATTR = 'authorship::attribution_tracker::Attribution'
+LATTR = 'authorship::attribution_tracker::LineAttribution'
+LINES = {'a': b'a1\n', 'b': b'b2\n', 'c': b'c3\n', 'd': b'd4\n'}
+
+
+def _text(seq):
+    return b''.join(LINES[x] for x in seq)
+
+
+def _attrs(M, seq, author_of):
+    """char + line attributions of a file whose lines are seq; author_of: line -> session or None"""
+    chars, lines = [], []
+    pos = 0
+    for i, x in enumerate(seq):
+        n = len(LINES[x])
+        a = author_of.get(x)
+        if a:
+            chars.append(mk_struct(M, ATTR, start=usize(pos), end=usize(pos + n), author_id=pystring(a), ts=Sc(1, 128)))
+            lines.append(mk_struct(M, LATTR, start_line=Sc(i + 1, 32), end_line=Sc(i + 1, 32), author_id=pystring(a), overrode=none()))
+        pos += n
+    return VecV(chars), VecV(lines)
+
+
+def subsets(alpha):
+    out = []
+    for m in range(1 << len(alpha)):
+        out.append([alpha[i] for i in range(len(alpha)) if (m >> i) & 1])
+    return out
+
+
+def ob_replay_step(h, shape):
+    """original head O, running state R, new content F: ordered subsets of pairwise distinct lines"""
+    P = h.P
+    M = P.M
+    P.state['c02_open'] = True
+    alpha = shape['alphabet']
+    subs = subsets(alpha)
+    O = subs[1 + h.choice(len(subs) - 1)]
+    who = {}
+    for x in O:
+        k = h.choice(3 if shape.get('two_sessions') else 2)
+        if k:
+            who[x] = 's%d' % k
+    # the running state starts as the original head and is only ever overwritten by a step's non-empty
+    # result: the file always has an entry with non-empty content
+    Rset = subs[1 + h.choice(len(subs) - 1)]
+    F = subs[1 + h.choice(len(subs) - 1)]
+    if shape.get('reorder') and len(F) > 1 and h.choice(2) == 1:
+        F = F[::-1]
+    # invariant of the running state (= this obligation, one step earlier): a line is attributed to S iff the
+    # original head attributed that line to S
+    r_who = {x: who[x] for x in Rset if x in who}
+    h.inputs_struct = {'original': O, 'authors': dict(who), 'running': Rset, 'running_authors': dict(r_who), 'final': F}
+    oc, ol = _attrs(M, O, who)
+    va = mk_struct(M, VAS, repo=Opaque('Repository', None), base_commit=pystring('orig'),
+                   attributions=MapV('hash', [[pystring('f'), tup(oc, ol)]], 'map'),
+                   file_contents=MapV('hash', [[pystring('f'), StringV(list(_text(O)))]], 'map'),
+                   prompts=MapV('btree', [], 'map'), ts=Sc(1, 128), blame_start_commit=none())
+    rc, rl = _attrs(M, Rset, r_who)
+    attributions = MapV('hash', [[pystring('f'), tup(rc, rl)]] if Rset else [], 'map')
+    contents = MapV('hash', [[pystring('f'), StringV(list(_text(Rset)))]] if Rset else [], 'map')
+    final = MapV('hash', [[pystring('f'), StringV(list(_text(F)))]], 'map')
+    try:
+        maps = P.call_named(RA + '::build_original_head_line_author_maps', [Ref(Cell(va))])
+        r = P.call_named(RA + '::transform_changed_files_to_final_state',
+                         [Ref(Cell(attributions)), Ref(Cell(contents)), final, some(Ref(Cell(va))), some(Ref(Cell(maps))), Sc(7, 128)])
+    except Panic as e:
+        h.panic('K3-no-panic', e.msg)
+        return
+    h.require(r.var == 'Ok', 'K3-step-ok', 'the replay step failed')
+    if r.var != 'Ok':
+        return
+    got = {}
+    for ent in attributions.ent:
+        if bytes(concrete_bytes(as_bytes(ent[0]))) == b'f':
+            for la in ent[1].f[1].e:
+                a = bytes(concrete_bytes(as_bytes(field(M, la, LATTR, 'author_id')))).decode()
+                s_ = field(M, la, LATTR, 'start_line')
+                e_ = field(M, la, LATTR, 'end_line')
+                if not (s_.concrete and e_.concrete):
+                    raise Unsupported('symbolic line numbers out of a concrete replay step')
+                for l in range(s_.v, e_.v + 1):
+                    got[l] = a
+    lost, gained = [], []
+    for i, x in enumerate(F):
+        want = who.get(x)
+        have = got.get(i + 1)
+        if have == 'human':
+            have = None
+        if want and have != want:
+            lost.append((x, want, have))
+        if not want and have:
+            gained.append((x, have))
+    h.require(not lost, 'K3-surviving-ai-lines-keep-their-session', 'lines (text, session before, session after) %r' % lost)
+    h.require(not gained, 'K3-nothing-else-becomes-ai', 'lines no session wrote are attributed: %r' % gained)
+    h.cover('K3-restored-from-original', any(x in who and x not in Rset for x in F))
+    h.cover('K3-carried-by-diff', any(x in who and x in Rset for x in F))
+    h.sample = h.witness()
+
+
+OBLIGATIONS = {'inert': ob_inert, 'shift': ob_shift, 'replay_step': ob_replay_step}
+MUST_COVER = ['K3-restored-from-original', 'K3-carried-by-diff']
 
 
 def replay(v, native):
